@@ -1,4 +1,5 @@
-import ThunderProofs.Diff.Reorder
+import ThunderProofs.Diff.Self
+import ThunderProofs.Diff.Js
 /-!
 # C03 — Diff/merge round trip
 
@@ -24,6 +25,22 @@ theorem merge_diff_any_matching (asg : List J → List J → List Int) (ga : Goo
     (f : Nat) (old new : J) (hf : depth old < f) (wo : WFJ old) (wn : WFJ new) :
     applyA f (strip old) (diffA asg f old new) = .ok (strip new) :=
   roundtripA asg ga f old new hf wo wn
+
+/-- **Round trip for the JavaScript client** (`client/src/merge.ts`, the documented delta format). -/
+theorem mergeJs_diff (f : Nat) (old new : J) (hf : depth old < f) (wo : WFJ old) (wn : WFJ new) :
+    applyJs f (strip old) (diffA reorder f old new) = .ok (strip new) :=
+  roundtripJs reorder goodAsg_reorder f old new hf wo wn
+
+/-- The round trip never relies on what `merge.Merge` answers for "object delta on a non-container"
+(Go returns `nil, nil`): it holds whatever that answer is, because `Diff` never emits such a pair. -/
+theorem merge_diff_strict (bad : Except String J) (f : Nat) (old new : J) (hf : depth old < f)
+    (wo : WFJ old) (wn : WFJ new) :
+    applyG bad f (strip old) (diffA reorder f old new) = .ok (strip new) :=
+  roundtripA reorder goodAsg_reorder f old new hf wo wn
+
+/-- **`Diff(x, x)` is empty** for every well-formed value and every fuel. -/
+theorem diff_self (f : Nat) (x : J) (w : WFJ x) : diffA reorder f x x = none :=
+  diffA_self f x w
 
 /-- `uncompressIndices (compressReorderIndices l) = l` for **every** index list. -/
 theorem uncompress_compress (l : List Int) : Rle.uncompress (Rle.compress l) = l :=
